@@ -12,6 +12,8 @@ What is *not* here (tied by correspondence only, see NOTES-C09.md): the real nom
 (chunk-insensitivity), f64 ↔ text.
 -/
 import SwimVerif.Proofs.ReconStyles
+import SwimVerif.Proofs.ReconInc
+import SwimVerif.Proofs.ReconIncCoupled
 
 set_option linter.unusedVariables false
 namespace SwimVerif.Recon
@@ -158,5 +160,94 @@ example : witnessQuotedAttrName.wf = true ∧
     print .compact witnessQuotedAttrName = "@\"my attr\"(1)@\"true\"".toList := by decide
 example : parse (print .std witnessQuotedAttrName) = .ok witnessQuotedAttrName.norm :=
   C09_parse_print_parse _ _ (by decide)
+
+/-! ## the incremental path: chunking does not matter
+
+Model: `Model/ReconInc.lean` — `RecognizerDecoder::{decode, decode_eof}` and `WithLenRecognizerDecoder` over the
+pushdown automaton and the streaming / complete tokens transcribed in `Model/ReconEq.lean` (C15), tied to the real
+decoders by the `chunksm` engine on every single cut (bytes, incl. inside multi-byte characters).  The theorems below
+are at *character* granularity (a chunking = a list of character lists); at byte granularity the decoder works on the
+longest valid UTF-8 prefix of its buffer and leaves an incomplete tail in it (`readUtf8`, executed and compared, not
+part of the statements). -/
+
+open SwimVerif.ReconInc SwimVerif.ReconEq in
+/-- **Token level.**  Every streaming token parser's verdict on the text seen so far is final: if the four primitive
+tokens (string, identifier/boolean, number incl. floats and radix integers, blob), tried in the automaton's order,
+answer `ok` (token, rest) or `err` on a prefix, they answer the same on any longer text (with the extra text left
+over); only `Incomplete` may still become anything. -/
+theorem C09_streaming_tokens_stable : LxStable (lexPrimM true) := lexPrimM_stable
+
+open SwimVerif.ReconInc SwimVerif.ReconEq in
+/-- **Automaton level.**  One call of `IncrementalReconParser::parse`, in any state: events, new stack, error or
+panic decided on the text seen so far are not changed by more input. -/
+theorem C09_parser_step_stable (stack : List PS) : StepStable (istep stack) :=
+  istep_stable lexPrimM_stable stack
+
+open SwimVerif.ReconInc SwimVerif.ReconEq in
+/-- **`decode_inner` is chunk-insensitive**: after running it on the text seen so far, the run on a longer text either
+continues from the state and unconsumed tail it stopped with (if it asked for more), or gives the same verdict. -/
+theorem C09_decode_inner_chunk_insensitive (st : List PS) (m : MSt) (p q : List Char) :
+    decodeInner st m (p ++ q) =
+      (if (decodeInner st m p).2.2.2 = .none then
+        decodeInner (decodeInner st m p).1 (decodeInner st m p).2.1 ((decodeInner st m p).2.2.1 ++ q)
+       else ((decodeInner st m p).1, (decodeInner st m p).2.1, (decodeInner st m p).2.2.1 ++ q, (decodeInner st m p).2.2.2)) :=
+  decodeInner_ext lexPrimM_stable st m p q
+
+open SwimVerif.ReconInc in
+/-- **Every chunking gives the same result** (bare `RecognizerDecoder`, any decoder state and buffer): `decode` after
+each chunk and `decode_eof` at the end is the same as receiving all the chunks at once. -/
+theorem C09_chunked_eq_unchunked (d : Raw) (buf c : List Char) (cs : List (List Char)) :
+    rawRun d buf (c :: cs) = rawRun d buf [c ++ cs.flatten] := rawRun_merge lexPrimM_stable cs d buf c
+
+open SwimVerif.ReconInc in
+/-- **The parser stack and the recogniser move in step** (the coupling the next theorem rests on): wherever a decoder
+run started on a fresh decoder stops to ask for more input with a parser stack other than `[Init]` / `[AfterAttr]`
+(the only stacks that have a final-segment parser), `ValueMaterializer::try_flush` has nothing to give.  Proved by an
+invariant carried through every parser call: frame for frame the recogniser is "in the body" exactly where the parser
+is in a body state. -/
+theorem C09_recogniser_coupled : FlushCoupled := flushCoupled
+
+open SwimVerif.ReconInc in
+/-- **Incremental = one-shot** (character level): for every text and every chunking of it, feeding the chunks to a
+fresh `RecognizerDecoder` (`decode` per chunk on buffer ++ chunk) and then `decode_eof` yields exactly what the one-shot
+`parse_recognize::<Value>` yields on the whole text — the same value, or an error (`cls`: the decoder's `Ok(None)` at
+the end of the input counts as the error it stands for).  Chunks are lists of characters: `read_utf8`'s splitting of a
+byte buffer at an incomplete trailing sequence is part of the executable model (and compared with the real decoder on
+every byte cut by the `chunksm` engine) but not of this statement, see `C09_incremental_eq_oneshot_bytes_open`. -/
+theorem C09_incremental_eq_oneshot (c : List Char) (cs : List (List Char)) :
+    cls (rawRun {} [] (c :: cs)) = cls (parseOne (c :: cs).flatten) :=
+  rawRun_eq_parseOne lexPrimM_stable flushCoupled c cs
+
+open SwimVerif.ReconInc in
+/-- Open: the same over byte chunks that may cut a multi-byte character.  The exact obligation is a fact about
+`read_utf8` alone: on every prefix of the UTF-8 encoding of a text it returns the characters whose encoding is complete
+and leaves the (at most 3) bytes of the cut one, and `utf8LenL` is the encoded length — with it `rawRunB` on byte chunks
+is `rawRun` on the corresponding character chunks.  (Not attempted: `charsOfBytes` is core's `String.fromUTF8?`.) -/
+def C09_incremental_eq_oneshot_bytes_open : Prop :=
+  ∀ (T : List Char) (bcs : List (List Nat)), bcs ≠ [] → bcs.flatten = bytesOfChars T →
+    cls (rawRunB {} [] bcs) = cls (parseOne T)
+
+example : SwimVerif.ReconInc.rawRun {} [] ["@a(1".toList, "2) {x".toList, ":".toList, " \"y\"}".toList] =
+    SwimVerif.ReconInc.rawRun {} [] ["@a(1".toList ++ ["2) {x".toList, ":".toList, " \"y\"}".toList].flatten] :=
+  C09_chunked_eq_unchunked _ _ _ _
+
+open SwimVerif.ReconInc in
+/-- **The length-delimited decoder never consumes beyond its frame**: a `decode` call on a decoder between frames
+with at least the 8 header bytes in the buffer either finishes the frame having taken exactly `8 + announced length`
+bytes — whatever the body is, well-formed or not — or takes less, keeps the difference as debt and delivers nothing. -/
+theorem C09_decoder_never_consumes_beyond (fuel : Nat) (w : WL) (src : List Nat) (hw : w.state = .header)
+    (h8 : 8 ≤ src.length) :
+    let res := WL.decode (fuel + 1) w src
+    res.2.1.length ≤ src.length ∧
+    (res.1.state = .header → src.length - res.2.1.length = 8 + beNat (src.take 8)) ∧
+    (res.1.state ≠ .header →
+      res.1.state.owed = some (8 + beNat (src.take 8) - (src.length - res.2.1.length)) ∧
+      src.length - res.2.1.length ≤ 8 + beNat (src.take 8) ∧ res.2.2 = .none) :=
+  WL_frame fuel w src hw h8
+
+open SwimVerif.ReconInc in
+/-- … and the same inside a frame, on every later call: the debt `r` is paid exactly, never exceeded. -/
+theorem C09_decoder_frame_accounting (fuel : Nat) (w : WL) (src : List Nat) (r : Nat) (h : w.state.owed = some r)
+    (hne : w.state ≠ .header) : Accounted r src (WL.decode fuel w src) := WL_decode_owed fuel w src r h hne
 
 end SwimVerif.Recon
